@@ -846,8 +846,22 @@ def _check_geo_complex(spec, ctx, B, area, n_interfaces):
     idxs, cls, ncls = judge_gluing(ctx, MP, shapes, uf)
     # accumulation: own scatter of the per-patch matrices, and the area of the polygon
     f = _fun(spec["f"])
-    A, b = ctx.sut(MP.assemble_system, assemblers.MassAssembler2D, assemblers.L2FunctionalAssemblerPhys2D, f=f,
-                   what="assemble_system")
+    # inputs by keyword, through the `args` dict, or through an `args` dict that already carries a 'geo' entry (a dict that
+    # was used for a single-patch assemble(..., args=args, geo=G) before: assemble() stores its keywords in it); the patch
+    # geometries must be used in every case
+    style = spec.get("argstyle", "kw")
+    if style == "kw":
+        A, b = ctx.sut(MP.assemble_system, assemblers.MassAssembler2D, assemblers.L2FunctionalAssemblerPhys2D, f=f,
+                       what="assemble_system")
+    else:
+        adict = {"f": f}
+        if style == "dict_geo":
+            ctx.sut(assemble.assemble, assemblers.MassAssembler2D, patches[0][0], args=adict, geo=patches[0][1],
+                    what="assemble(args=dict, geo=...)")
+            ctx.require("args_dict_history", "geo" in adict, "assemble() no longer stores its keyword arguments in the args dict")
+        A, b = ctx.sut(MP.assemble_system, assemblers.MassAssembler2D, assemblers.L2FunctionalAssemblerPhys2D, args=adict,
+                       what="assemble_system(args=dict)")
+    ctx.flag("inputs_" + style)
     Aref = np.zeros((ncls, ncls))
     bref = np.zeros(ncls)
     for p, (kvs, geo) in enumerate(patches):
@@ -991,6 +1005,7 @@ def strat_annulus(draw, tier):
             "center": [draw(st.sampled_from([0.0, 1.0, -3.0])), draw(st.sampled_from([0.0, 2.0]))],
             "rep": [[draw(st.integers(0, 1)), draw(st.integers(0, 3))] for _ in range(g)],
             "order": list(draw(st.permutations(list(range(g))))), "f": draw(st.integers(0, 3)),
+            "argstyle": draw(st.sampled_from(["kw", "dict", "dict_geo"])),
             "bc": [[draw(st.integers(0, 40)), draw(st.integers(0, 4)), draw(st.integers(0, 1))]
                    for _ in range(draw(st.integers(0, 3)))]}
 
@@ -1003,6 +1018,7 @@ def strat_ring_geo(draw, tier):
             "center": [draw(st.sampled_from([0.0, 1.0, -3.0])), draw(st.sampled_from([0.0, 2.0]))],
             "rep": [[draw(st.integers(0, 1)), draw(st.integers(0, 3))] for _ in range(k)],
             "order": list(draw(st.permutations(list(range(k))))), "f": draw(st.integers(0, 3)),
+            "argstyle": draw(st.sampled_from(["kw", "kw", "dict", "dict_geo"])),
             "bc": [[draw(st.integers(0, 40)), draw(st.integers(0, 4)), draw(st.integers(0, 1))]
                    for _ in range(draw(st.integers(0, 3)))]}
 
